@@ -23,7 +23,8 @@ def Leaf.strValue (l : Leaf) : String :=
     let v := if l.op.isContains then quoteMeta l.sval else l.sval
     let full := if l.col.dtype == .customVar then l.tag ++ " " ++ v else v
     -- a blank at the end of the line would be lost by the next parse; the parser removes the ".*" again
-    if l.op.isContains && (full.toList.getLast?.map isGoSpace).getD false then full ++ ".*" else full
+    let full := if l.op.isContains && (full.toList.getLast?.map isGoSpace).getD false then full ++ ".*" else full
+    if l.op.isContains && l.col.dtype != .customVar && (full.toList.head?.map isGoSpace).getD false then ".*" ++ full else full
 
 /-- one leaf line: `<prefix>: <column> <op>[ <value>]` -/
 def Leaf.printLine (kw : String) (l : Leaf) : String :=
